@@ -125,8 +125,8 @@ __CPROVER_assigns(f->pos, f->len, f->fail, f->eof, __CPROVER_object_whole(f->buf
 /*@ C03 C14 : Parameters_write.prologue */
 __CPROVER_ensures(B(512) == 1 && B(513) == 0x50 && B(515) == 84)
 /*@ C03 : Parameters_write.ends-on-block-boundary */ __CPROVER_ensures(!f->fail && f->pos % 512 == 0 && f->len == (size_t)f->pos)
-/*@ C03 C01 : Parameters_write.terminator-present */
-__CPROVER_ensures(f->pos >= 517 + 1 && B(f->pos - 1) == 0)
+/*@ C03 C01 : Parameters_write.room-for-terminator */
+__CPROVER_ensures(f->pos >= 517 + 1) /* that the padding bytes are zero (terminator) is proved in Parameters_write_padding */
 /*@ C03 C01 : Parameters_write.block-count-exact */
 __CPROVER_ensures(B(514) == (unsigned)(((f->pos - 512) / 512) & 0xFF))
 /*@ C10 C14 : Parameters_write.nothrow */ __CPROVER_ensures(vf_exc == 0);
@@ -149,9 +149,9 @@ long vf_dsp_seen;
 void contract_abs2_Group__write(const struct Group *self, vf_stream *f, int groupIdx, vf_spos *dataStartPosition)
 __CPROVER_requires(vf_exc == 0 && __CPROVER_r_ok(self, sizeof(*self)) && VF_OSTREAM_OK(f) && __CPROVER_rw_ok(dataStartPosition, sizeof(*dataStartPosition)) &&
                    f->pos <= VF_PSEC_MAX)
-__CPROVER_assigns(f->pos, f->len, *dataStartPosition, vf_rec_end, __CPROVER_object_whole(f->buf))
+__CPROVER_assigns(f->pos, f->len, *dataStartPosition, vf_rec_end, vf_dsp_seen, __CPROVER_object_whole(f->buf))
 __CPROVER_ensures(vf_exc == 0 && !f->fail && !f->eof && f->pos >= __CPROVER_old(f->pos) + 5 && f->pos <= VF_PSEC_MAX + 512 &&
-                  f->len == (size_t)f->pos && vf_rec_end == f->pos)
+                  f->len == (size_t)f->pos && vf_rec_end == f->pos && vf_dsp_seen == *dataStartPosition)
 __CPROVER_ensures(*dataStartPosition >= __CPROVER_old(f->pos) && *dataStartPosition <= f->pos - 2)
 __CPROVER_ensures(f->buf[512] == __CPROVER_old(f->buf[512]) && f->buf[513] == __CPROVER_old(f->buf[513]) &&
                   f->buf[514] == __CPROVER_old(f->buf[514]) && f->buf[515] == __CPROVER_old(f->buf[515]));
@@ -160,7 +160,9 @@ void contract_Z_Parameters__write(const struct Parameters *self, vf_stream *f)
 __CPROVER_requires(vf_exc == 0 && __CPROVER_r_ok(self, sizeof(*self)) && self->_groups.size == 1 &&
                    __CPROVER_r_ok(self->_groups.data, sizeof(struct Group)) && VF_OSTREAM_OK(f) && f->pos == 512 && f->len == 512 &&
                    f->cap == (size_t)VF_PSEC_MAX + 1024 && !vf_fault_enabled && self->_parametersStart == 1)
-__CPROVER_assigns(f->pos, f->len, f->fail, f->eof, vf_rec_end, __CPROVER_object_whole(f->buf))
+__CPROVER_assigns(f->pos, f->len, f->fail, f->eof, vf_rec_end, vf_dsp_seen, __CPROVER_object_whole(f->buf))
+/*@ C03 : Parameters_write.data-start-is-1-based-block-of-data */
+__CPROVER_ensures(B(vf_dsp_seen) == (unsigned)((f->pos / 512 + 1) & 0xFF))
 /*@ C03 C01 C14 : Parameters_write.padding-is-zero */
 __CPROVER_ensures((vf_gc >= (size_t)vf_rec_end && vf_gc < (size_t)f->pos) ==> f->buf[vf_gc] == 0)
 /*@ C03 C01 : Parameters_write.at-least-one-padding-byte */ __CPROVER_ensures(f->pos > vf_rec_end)
